@@ -232,6 +232,7 @@ theorem printObjs_ok (fuel : Nat) : ∀ (p : PF) (full t : Bytes) (objs : List O
         cases hv : o.val with
         | int raw => simp [hv] at ht
         | dbl bits => simp [hv] at ht
+        | gstr g => simp [hv] at ht
         | str fmt =>
           simp only [hv] at ht ⊢
           cases hg : genFormat (convText floatModelText) ((cstrlen fmt).length + 1) (cstrlen fmt) (splitFmtArgs fmt rest).1 with
@@ -305,6 +306,7 @@ theorem printlnObjs_ok (fuel : Nat) : ∀ (p : PF) (t : Bytes) (objs : List Obj)
         cases hv : o.val with
         | int raw => simp [hv] at ht
         | dbl bits => simp [hv] at ht
+        | gstr g => simp [hv] at ht
         | str fmt =>
           simp only [hv] at ht ⊢
           cases hg : genFormat (convText floatModelText) ((cstrlen fmt).length + 1) (cstrlen fmt) (splitFmtArgs fmt rest).1 with
